@@ -76,6 +76,9 @@ Proof. induction xs as [|x r IH]; [reflexivity|]. cbn [existsb]. rewrite <- IH. 
 Lemma F2_length {A B} {R : A -> B -> Prop} {l l'} : Forall2 R l l' -> length l = length l'.
 Proof. induction 1; cbn [length]; lia. Qed.
 
+Definition possible (x : ms) : nat := if snd (nostk x) then O else 1%nat.
+Fixpoint cntp (l : list ms) : nat := match l with [] => O | x :: r => Nat.add (possible x) (cntp r) end.
+
 Section Bounds.
   Variable fx : fixes.
   Variable c : xctx.
@@ -90,6 +93,56 @@ Section Bounds.
 
   Lemma min_fn_fold a b : (if mall then minimum_mall se else minimum se) a b = min_fn se mall a b.
   Proof. reflexivity. Qed.
+
+  (* ---- thresh: fewer than k children that can ever be satisfied *)
+  Lemma picks_possible : forall (xs : list ms) (flags : list bool),
+    length flags = length xs ->
+    Forall (fun x => snd (nostk x) = true -> ns (s_stack (snd (sdm x)))) xs ->
+    Forall (fun s => exists l, s_stack s = WStack l) (picks flags (map sdm xs)) ->
+    (length (filter (fun b : bool => b) flags) <= cntp xs)%nat.
+  Proof.
+    induction xs as [|x r IH]; intros flags Hl HF HP; destruct flags as [|f fr]; try discriminate; [cbn; lia|].
+    cbn [length] in Hl. inversion HF as [|? ? Hx HF']; subst. cbn [map picks] in HP. inversion HP as [|? ? Hp HP']; subst.
+    cbn [filter cntp]. specialize (IH fr ltac:(lia) HF' HP').
+    destruct f; cbn [length]; [|lia].
+    unfold possible. destruct (snd (nostk x)) eqn:E; [|lia].
+    exfalso. destruct Hp as [l Hl']. unfold pick in Hl'. exact (Hx eq_refl l Hl').
+  Qed.
+  Lemma filter_id_map {A} (f : A -> bool) (l : list A) :
+    length (filter (fun b : bool => b) (map f l)) = length (filter f l).
+  Proof. induction l as [|a r IH]; [reflexivity|]. cbn [map filter]. destruct (f a); cbn [length]; rewrite IH; reflexivity. Qed.
+  Lemma filter_id_repeat_true n : length (filter (fun b : bool => b) (repeat true n)) = n.
+  Proof. induction n as [|n IH]; [reflexivity|]. cbn [repeat filter length]. rewrite IH. reflexivity. Qed.
+
+  Lemma thresh_nosat_sound k xs :
+    Forall (fun x => snd (nostk x) = true -> ns (s_stack (snd (sdm x)))) xs ->
+    (k <=? N.of_nat (length xs)) && (N.of_nat (cntp xs) <? k) = true ->
+    ns (s_stack (snd (sdm (MThresh k xs)))).
+  Proof.
+    intros HF Hc. apply andb_prop in Hc. destruct Hc as [Hkn Hcnt]. apply N.leb_le in Hkn. apply N.ltb_lt in Hcnt.
+    rewrite sat_dissat_thresh. cbv zeta. cbn [snd]. set (ds := map sdm xs).
+    assert (Hlds : length ds = length xs) by apply map_length.
+    assert (G : forall flags, length flags = length xs ->
+                 length (filter (fun b : bool => b) flags) = N.to_nat k ->
+                 ns (s_stack (flatten_rev (picks flags ds)))).
+    { intros flags Hl Hk L E. unfold flatten_rev in E. apply fold_cr_elems in E.
+      pose proof (picks_possible xs flags Hl HF E). lia. }
+    destruct (N.eqb_spec k (N.of_nat (length xs))) as [Ek|Ek].
+    - rewrite (picks_all_true ds). apply G; [rewrite repeat_length; exact Hlds|].
+      rewrite filter_id_repeat_true. lia.
+    - assert (Hk' : (N.to_nat k <= length ds)%nat) by lia.
+      assert (Hgen : forall {K} (le : K -> K -> bool) (f : nat -> K),
+                 ns (s_stack (flatten_rev (swap_in (firstn (N.to_nat k)
+                      (map fst (sort_by le (map (fun i => (i, f i)) (seq 0 (length ds)))))) (map fst ds) (map snd ds))))).
+      { intros K le f. rewrite swap_in_picks. apply G; [rewrite map_length, seq_length; exact Hlds|].
+        rewrite filter_id_map. apply (chosen_count le f (length ds) (N.to_nat k) Hk'). }
+      destruct mall.
+      + unfold thresh_mall. rewrite map_length. apply Hgen.
+      + unfold thresh_nonmall. rewrite map_length.
+        match goal with |- context [if ?b then IMPOSSIBLE else _] => destruct b end; [apply ns_imp|].
+        match goal with |- context [if ?b then UNAVAILABLE else _] => destruct b end; [apply ns_unav|].
+        apply Hgen.
+  Qed.
 
   (* soundness of the syntactic "never a stack" predicates *)
   Lemma nostk_sound m :
@@ -147,7 +200,9 @@ Section Bounds.
     - (* or_i *) cbn [sat_dissat]. destruct (sdm m1) as [ld ls], (sdm m2) as [rd rs]. cbn [fst snd] in *.
       destruct IHm1 as [A1 B1], IHm2 as [A2 B2].
       split; intros H; apply andb_prop in H; destruct H as [H1 H2]; rewrite min_fn_fold; apply ns_min; apply ns_push; auto.
-    - (* thresh *) rewrite sat_dissat_thresh. cbn [fst snd]. rewrite go_existsb. split; [|discriminate].
+    - (* thresh *) split; [|intros Hn; apply thresh_nosat_sound;
+                              [eapply Forall_impl; [|exact H]; intros x [_ B]; exact B | exact Hn]].
+      rewrite sat_dissat_thresh. cbn [fst snd]. rewrite go_existsb.
       intros Hex. apply existsb_exists in Hex. destruct Hex as (x & Hin & Hx).
       rewrite Forall_forall in H. destruct (H x Hin) as [Ax _].
       apply (ns_flatten _ (fst (sdm x))); [|apply Ax, Hx].
